@@ -104,15 +104,28 @@ func (o *FilterOptimizer) optimizeExpr(expr Expression) *ScanType {
 			return o.optimizeOrExpr(e)
 		case PrefixMatch:
 			// It may use PREFIX or FULL
+			if isLiteralOnLeft(e) {
+				// 'abc' ^= key asks whether key is a prefix of the literal,
+				// that does not pin the key to a prefix region
+				return &ScanType{FULL, nil}
+			}
 			return o.optimizePrefixMatchExpr(e)
 		case Eq:
 			// It may use MGET or FULL
 			return o.optimizeEqualExpr(e)
 		case Gt, Gte:
 			// It may use RANGE or FULL
+			if isLiteralOnLeft(e) {
+				// 'x' > key is same as key < 'x'
+				return o.optimizeLtLteExpr(e)
+			}
 			return o.optimizeGtGteExpr(e)
 		case Lt, Lte:
 			// It may use RANGE or FULL
+			if isLiteralOnLeft(e) {
+				// 'x' < key is same as key > 'x'
+				return o.optimizeGtGteExpr(e)
+			}
 			return o.optimizeLtLteExpr(e)
 		case In:
 			// It must use MGET
@@ -134,6 +147,13 @@ func (o *FilterOptimizer) optimizeExpr(expr Expression) *ScanType {
 		// Other expression use FULL
 		return &ScanType{FULL, nil}
 	}
+}
+
+// isLiteralOnLeft reports the expression like: 'literal' op key
+func isLiteralOnLeft(e *BinaryOpExpr) bool {
+	_, leftIsLiteral := e.Left.(*StringExpr)
+	_, rightIsField := e.Right.(*FieldExpr)
+	return leftIsLiteral && rightIsField
 }
 
 func (o *FilterOptimizer) optimizeInExpr(e *BinaryOpExpr) *ScanType {
